@@ -256,7 +256,11 @@ def compare_session(line, h_ans, m_ans, debug_build=False, ignore_ops=()):
                 return h == 'P'
             return h == m
         if live3 and unspecified(m3):
+            # the model of the code says this is a debug-only panic point (e.g. a table look-ahead
+            # wider than the reader guarantees, which the library documents as "unpredictable"):
+            # an optimised build is not compared with anything from here on
             live3 = False
+            live1 = False
         if live1 and unspecified(m1):
             live1 = False
         if live1 and m1 in ('-', '- -') and h == m1:      # no counters on this machine
